@@ -157,6 +157,21 @@ func (c06) Build(tier string, seed uint64) []any {
 		}
 		cs = append(cs, c)
 	}
+	// (strip) one dimension beyond 2^15 (more than one default 32768 x 32768 precinct per
+	// resolution level) with and without decomposition (1 x N / N x 1 force zero levels)
+	for i, g := range [][2]int{{40000, 1}, {1, 40000}, {33000, 3}, {3, 33000}, {65535, 1}, {32769, 2}, {32768, 1}, {40000, 2}} {
+		if !th && i >= 4 && (i+int(seed))%2 == 0 {
+			continue
+		}
+		r := gen.Sub(seed, "C06", "strip", i)
+		c := &c06Case{Gen: "strip", W: g[0], H: g[1]}
+		randC06Config(r, c)
+		if i%2 == 0 || g[0] == 1 || g[1] == 1 {
+			c.Levels = 0
+		}
+		c.SPP = 1
+		cs = append(cs, c)
+	}
 	for i := 0; i < nRand; i++ {
 		r := gen.Sub(seed, "C06", "rand", i)
 		c := &c06Case{Gen: "rand", W: 1 + r.Intn(600), H: 1 + r.Intn(600)}
